@@ -114,3 +114,55 @@ def subst(t, mapping):
     if isinstance(t, tuple) and t and t[0] not in ("leaf", "c", "pi"):
         return tuple(subst(x, mapping) if isinstance(x, tuple) else x for x in t)
     return t
+
+
+def term_of_sympy(x):
+    """A term with the *shape* of a sympy expression as its author wrote it (sympy keeps (a - b)**2, sqrt, products and
+    quotients unexpanded), for comparing the conditioning of the textbook form with that of the implementation."""
+    import sympy
+    from fractions import Fraction as Fr
+    if x.is_Symbol:
+        return ("leaf", x.name)
+    if x.is_Rational:
+        return ("c", Fr(int(x.p), int(x.q)))
+    if x.is_Add:
+        pos, neg = [], []
+        for a in x.args:
+            c, rest = a.as_coeff_Mul()
+            (neg if c.is_negative else pos).append(a if not c.is_negative else -a)
+        if not pos:
+            t = ("neg", term_of_sympy(neg[0]))
+            neg = neg[1:]
+        else:
+            t = term_of_sympy(pos[0])
+            for a in pos[1:]:
+                t = ("add", t, term_of_sympy(a))
+        for a in neg:
+            t = ("sub", t, term_of_sympy(a))
+        return t
+    if x.is_Mul:
+        num, den = [], []
+        for a in x.args:
+            if a.is_Pow and a.exp.is_Rational and a.exp.is_negative:
+                den.append(sympy.Pow(a.base, -a.exp))
+            elif a.is_Rational and a.p == 1 and a.q != 1:
+                den.append(sympy.Integer(a.q))
+            else:
+                num.append(a)
+        t = term_of_sympy(num[0]) if num else ("c", Fr(1))
+        for a in num[1:]:
+            t = ("mul", t, term_of_sympy(a))
+        for a in den:
+            t = ("div", t, term_of_sympy(a))
+        return t
+    if x.is_Pow:
+        if x.exp == sympy.Rational(1, 2):
+            return ("fn", "sqrt", term_of_sympy(x.base))
+        if x.exp == sympy.Rational(1, 3):
+            return ("fn", "cbrt", term_of_sympy(x.base))
+        if x.exp.is_Integer and int(x.exp) == 2:
+            b = term_of_sympy(x.base)
+            return ("mul", b, b)
+        if x.exp.is_Rational:
+            return ("fn", "pow", term_of_sympy(x.base), ("c", Fr(int(x.exp.p), int(x.exp.q))))
+    raise ValueError("no term for %s" % x)
